@@ -90,7 +90,7 @@ func C02(tier rt.Tier) int {
 			{name: "level-pnodedb-v7", kind: LevelP, paths: p2[:13], vals: []string{"x"}, flush: true, depth: 4, version: 7},
 		}
 	} else {
-		per = 4 * time.Minute
+		per = 3 * time.Minute
 		runs = []alphabet{
 			{name: "mem-v1", kind: Mem, paths: p2, vals: []string{"x", "y"}, depth: 5, version: 1},
 			{name: "mem-3symbols-v0", kind: Mem, paths: Paths("0af", 4), vals: []string{"x", "y"}, depth: 4, version: 0},
@@ -253,7 +253,7 @@ func C14(tier rt.Tier) int {
 			{name: "level-over-level", kind: LevelL, paths: p2[:9], vals: []string{"::x:"}, flush: true, depth: 4, version: 1},
 		}
 	} else {
-		per = 5 * time.Minute
+		per = 3 * time.Minute
 		runs = []alphabet{
 			{name: "mem-adversarial-values", kind: Mem, paths: p2, vals: adversarialValues, depth: 4, version: 1},
 			{name: "level-mem-versions", kind: LevelMem, paths: p2, vals: adversarialValues[:3], flush: true, bump: 2, depth: 5, version: -1},
